@@ -252,16 +252,15 @@ Definition parse_path (w : bytes) : option (list nfrag) :=
   | [] => None
   end.
 
-(* what a fragment reads back as: a key printed in brackets has its invalid UTF-8 replaced *)
+(* what a fragment reads back as: keys and members exactly as they were; a union of one member
+   is that child / index; a slice gets its end filled in and is cut to the three numbers printed *)
 Definition norm_frag (f : nfrag) : nfrag :=
   match f with
-  | NChild k => if token_ok k then NChild k else NChild (sanitize k)
-  | NUnion [inl s] => NChild (sanitize s)      (* a union of one member reads back as that child / index *)
+  | NUnion [inl s] => NChild s
   | NUnion [inr i] => NNth i
-  | NUnion ms => NUnion (map (fun m => match m with inl s => inl (sanitize s) | inr i => inr i end) ms)
-  | NSlice [] => NSlice [0; slice_max_end]           (* the parser always fills in the end *)
+  | NSlice [] => NSlice [0; slice_max_end]
   | NSlice [a] => NSlice [a; slice_max_end]
-  | NSlice (a :: b :: c :: _) => NSlice [a; b; c]    (* only three numbers are printed *)
+  | NSlice (a :: b :: c :: _) => NSlice [a; b; c]
   | _ => f
   end.
 
